@@ -275,3 +275,25 @@ M("glue6-or-sphinx", "C17", GL, "            module is not None\n            and
 M("glue6-never-pending", "C17", GL, "        builtin_glue_pending[needs_module] = fn\n        module = sys.modules.get(needs_module)", "        module = sys.modules.get(needs_module)", "GLUE-6")
 T("twin-glue6-demorgan", "C17", GL, "        if (\n            module is not None\n            and \"sphinx\" not in sys.modules", "        if not (module is None or \"sphinx\" in sys.modules) and (\n            True")
 T("twin-glue7-fixed", "C17", GL, "    if len(sys.modules) == _sys_modules_len_cache[0]:\n        return\n", "")
+
+# ---------------------------------------------------------------- C12
+CD = "_code_dispatch.py"
+M("reg1-plain-dict", "C12", CD, "registry = IdentityDict[types.CodeType, Callable[Concatenate[T, P], R]]()", "registry: dict = {}", "REG-1")
+M("reg2-getitem-key", "C12", CD, "        return self._data[id(key)][1]", "        return self._data[key][1]", "REG-2")
+M("reg2-setdefault-proj", "C12", CD, "return self._data.setdefault(id(key), (key, default))[1]", "return self._data.setdefault(id(key), (key, default))[0]", "REG-2")
+M("reg2-store-drops-key", "C12", CD, "        self._data[id(key)] = key, value", "        self._data[id(key)] = None, value", "REG-2")
+M("reg2-pop-hash", "C12", CD, "            return self._data.pop(id(key))[1]", "            return self._data.pop(hash(key))[1]", "REG-2")
+M("reg3-partial-continue", "C12", CD, "            thing = thing.func\n            continue\n", "            thing = thing.func\n            break\n", "REG-3")
+M("reg3-method-continue", "C12", CD, "            thing = thing.__func__\n            continue\n", "            thing = thing.__func__\n", "REG-3")
+M("reg3-staticmethod-dropped", "C12", CD, "(types.MethodType, classmethod, staticmethod)", "(types.MethodType, classmethod)", "REG-3")
+M("reg3-wrapped-dropped", "C12", CD, '        if hasattr(thing, "__wrapped__"):\n            thing = inspect.unwrap(cast(types.FunctionType, thing))\n            continue\n', "", "REG-3")
+M("reg3-nested-first-code", "C12", CD, "if isinstance(const, types.CodeType) and const.co_name == name:", "if isinstance(const, types.CodeType):", "REG-3")
+M("reg4-first-wins", "C12", CD, "            registry[actual_code] = func\n", "            registry.setdefault(actual_code, func)\n", "REG-4")
+M("reg4-key-raw", "C12", CD, "            actual_code = get_code(code, *nested_names)", "            actual_code = get_code(code)", "REG-4")
+M("reg4-dispatch-broad", "C12", CD, "            except KeyError:\n                return default_impl", "            except Exception:\n                return default_impl", "REG-4")
+M("reg6-dispatch-dropped", "C12", CD, "        wrapper.dispatch = dispatch  # type: ignore\n", "", "REG-6")
+M("f3-reverted-partial", "C12", CU, "customize, hide=hide, hide_line=hide_line, prune=prune, elaborate=elaborate", "customize, hide=hide, prune=prune, elaborate=elaborate", "REG-5")
+M("f3-reverted-effect", "C12", CU, "        if hide_line:\n            frame.hide_line = True\n", "", "REG-5")
+M("reg5-prune-dead", "C12", CU, "        return PRUNE if prune else None", "        return None", "REG-5")
+M("reg5-hide-wrong-field", "C12", CU, "        if hide:\n            frame.hide = True", "        if hide:\n            frame.hide_line = True", "REG-5")
+M("reg5-elaborate-swallowed", "C12", CU, "            if replacement is not None:  # pragma: no branch\n                return replacement\n", "", "REG-5")
